@@ -72,20 +72,25 @@ def mk_space(s):
 
 
 def desc_key(obj):
-    """Description of a Domain: class name + the values it declares as identifying (recursively)."""
-    from nifty.cl.domains.domain import Domain
-
-    def conv(v):
-        if isinstance(v, Domain):
-            return desc_key(v)
-        if isinstance(v, (tuple, list)):
-            return tuple(conv(x) for x in v)
-        if isinstance(v, (np.floating, float)):
-            return float(v)
-        if isinstance(v, (np.integer, int)) and not isinstance(v, bool):
-            return int(v)
-        return v
-    return (type(obj).__name__,) + tuple(conv(vars(obj)[k]) for k in obj._needed_for_hash)
+    """Description of a Domain through its PUBLIC attributes (independent of __eq__/__hash__ and of
+    `_needed_for_hash`): class name + constructor-level parameters."""
+    n = type(obj).__name__
+    if n == "RGSpace":
+        return (n, tuple(int(x) for x in obj.shape), tuple(float(x) for x in obj.distances), bool(obj.harmonic))
+    if n == "LMSpace":
+        return (n, int(obj.lmax), int(obj.mmax))
+    if n == "GLSpace":
+        return (n, int(obj.nlat), int(obj.nlon))
+    if n == "HPSpace":
+        return (n, int(obj.nside))
+    if n == "PowerSpace":
+        bb = obj.binbounds
+        return (n, desc_key(obj.harmonic_partner), None if bb is None else tuple(float(x) for x in bb))
+    if n == "DOFSpace":
+        return (n, tuple(float(x) for x in obj.dvol))
+    if n == "UnstructuredDomain":
+        return (n, tuple(int(x) for x in obj.shape))
+    raise C.MachineryError("no description for domain class " + n)
 
 
 # ---------------------------------------------------------------------------------------------------
@@ -595,7 +600,7 @@ class C08(C.Check):
         "hand-written model coq/C08/Model.v (tied by correspondence, not by translation)",
         "numpy sqrt/searchsorted/bincount/unique and float64 rounding: k-lengths, volumes and means are compared within 2^-40 relative; integer tables and power indices exactly",
         "ducc0 Gauss-Legendre weights and HEALPix geometry (oracle only: total volume = sum of weights = 4 pi numerically)",
-        "description of a domain = class name + the attributes listed in _needed_for_hash, read by the harness with vars()",
+        "description of a domain = class name + its public constructor-level attributes (shape/distances/harmonic, lmax/mmax, nlat/nlon, nside, partner+binbounds, dvol), read by the harness independently of __eq__/__hash__/_needed_for_hash",
         "pickle protocol of CPython (__reduce__ -> make)",
     ]
     assumptions = [
@@ -611,7 +616,7 @@ class C08(C.Check):
         self.cases = corpus + gen_cases(ctx)
         self.obs = [run_case(c) for c in self.cases]
         checks = [coq_check(c, o) for c, o in zip(self.cases, self.obs)]
-        bad = C.eval_cases(self.prop, "corr", HEADER, checks, shard=40 if ctx.quick else 120)
+        bad = C.eval_cases(self.prop, "corr", HEADER, checks, shard=40 if ctx.quick else 120, jobs=5)
         for i in bad[:4]:
             o = {k: v for k, v in self.obs[i].items() if k not in ("objs",)}
             res.add_broken("correspondence", "%s vs coq/C08/Model.v" % self.cases[i]["kind"], {"case": self.cases[i], "observed": o})
